@@ -463,10 +463,10 @@ package ro
 
 //@ func ToChannel$1$1$3
 //@   note the teardown
-//@   props C17 C03
+//@   props C17 C03 C14
 //@   binds subscriptions
 //@   track subscriptions.* call.Once.Do chclose.* chrecv.* chsend.* chselect chpoll
-//@   ensures [releases-upstream-then-closes-once|C17,C03] trace(subscriptions.Unsubscribe(), call.Once.Do)
+//@   ensures [releases-upstream-then-closes-once|C17,C03,C14] trace(subscriptions.Unsubscribe(), call.Once.Do)
 //@   ensures [takes-nothing-out-of-the-channel|C17] count(chrecv.ANY) == 0 && count(chpoll) == 0 && count(chselect) == 0
 
 // detachOn (ObserveOn / SubscribeOn, operator_utility.go): a channel of the configured capacity; one blocking send
@@ -728,12 +728,13 @@ package ro
 //@   note the ticking goroutine of Interval: value k is emitted on the k-th tick received, nothing is emitted without a tick
 //@   props C16 C09
 //@   binds destination ctx
-//@   track destination.* loop.* chselect chpoll chrecv.ANY
-//@   ensures [completes-when-told-to-stop|C16] trace(loop.L0, chselect, destination.CompleteWithContext(ctx))
+//@   track destination.* loop.* chselect chpoll chrecv.ANY ctx.Done
+//@   ensures [completes-when-told-to-stop|C16] trace(loop.L0, ctx.Done(), chselect, destination.CompleteWithContext(ctx))
 
 //@ loop Interval$1$1#0
 //@   iteration ensures count(chselect) == 1 && count(chpoll) == 0 && count(chrecv.ANY) == 0 && count(destination.NextWithContext) <= 1 && before(chselect, destination.NextWithContext)
 //@   iteration ensures called(destination.NextWithContext) ==> arg(destination.NextWithContext, 0) == ctx && arg(destination.NextWithContext, 1) == value
+//@   iteration ensures count(ctx.Done) == 1 && arg(chselect, 0) == done && arg(chselect, 1) == res(ctx.Done)
 
 // ---------------------------------------------------------------------------
 // second batch: remaining single-source operators
@@ -1144,12 +1145,13 @@ package ro
 //@   note the ticking goroutine of IntervalWithInitial: every value follows a tick of the initial timer or of the ticker; at most one value per tick; completes when told to stop
 //@   props C16 C09
 //@   binds destination ctx
-//@   track destination.* loop.* chselect chpoll chrecv.ANY
-//@   ensures [completes-when-told-to-stop|C16] trace(loop.L0, chselect, destination.CompleteWithContext(ctx))
+//@   track destination.* loop.* chselect chpoll chrecv.ANY ctx.Done
+//@   ensures [completes-when-told-to-stop|C16] trace(loop.L0, ctx.Done(), chselect, destination.CompleteWithContext(ctx))
 
 //@ loop IntervalWithInitial$1$1#0
 //@   iteration ensures count(chselect) == 1 && count(chpoll) == 0 && count(chrecv.ANY) == 0 && count(destination.NextWithContext) <= 1 && before(chselect, destination.NextWithContext)
 //@   iteration ensures called(destination.NextWithContext) ==> arg(destination.NextWithContext, 0) == ctx && arg(destination.NextWithContext, 1) == value - 1
+//@   iteration ensures count(ctx.Done) == 1 && arg(chselect, 0) == done && arg(chselect, 1) == res(ctx.Done)
 
 // math lifts: each value is replaced by what the standard function returns for it (floating point itself is not reasoned about)
 
